@@ -420,6 +420,9 @@ func msgRequired(s *Spec) bool {
 func judge(o outcome) verdict {
 	s := &o.cell.Spec
 	if o.obs == nil {
+		if strings.HasPrefix(o.exit, "killed") {
+			return verdict{"hang", true, "the child did not even report within its own watchdog and was " + o.exit}
+		}
 		return verdict{"driver-crash", true, "the driver process died: " + o.exit}
 	}
 	b := o.obs
